@@ -5,6 +5,7 @@ import (
 	"path/filepath"
 	"runtime"
 	"strings"
+	"sync"
 	"time"
 
 	tally "github.com/uber-go/tally/v4"
@@ -50,7 +51,48 @@ func init() {
 			tr.Emit(M{"e": "rootcloseret", "t": "main", "err": err != nil, "experr": false, "loopended": ended})
 			tr.Emit(M{"e": "end"})
 		}
+		// a periodic pass is stuck inside the reporter's Flush (no registry lock is held there) for longer than any
+		// reasonable patience when Close is called: Close still waits for it
+		for k := 0; k < 2; k++ {
+			sr := &slowFlushReporter{entered: make(chan struct{}), release: make(chan struct{})}
+			root, closer := tally.VerifNewRootScope(tally.ScopeOptions{Reporter: sr, OmitCardinalityMetrics: true}, 2*time.Millisecond, 1)
+			tr.Emit(M{"e": "scn", "mod": 0, "x": rounds + k + 1})
+			root.Counter("c").Inc(1)
+			<-sr.entered // the report loop is inside Flush
+			tr.Emit(M{"e": "rootclosecall", "t": "main"})
+			returned := make(chan error, 1)
+			go func() { returned <- closer.Close() }()
+			early := false
+			select {
+			case <-returned:
+				early = true // Close came back although the periodic pass is still inside the reporter
+			case <-time.After(1500 * time.Millisecond):
+			}
+			close(sr.release)
+			if !early {
+				<-returned
+			}
+			tr.Emit(M{"e": "rootcloseret", "t": "main", "err": false, "experr": false, "loopended": !early})
+			tr.Emit(M{"e": "end"})
+		}
 		tr.Close()
 		writeMeta(cm.out, M{"cases": rounds, "execs": rounds, "events": tr.N, "evals": rounds, "distinct": 1, "loop_alive_after_close": alive, "samples": []interface{}{M{"rounds": rounds}}})
 	})
+}
+
+// slowFlushReporter: the first Flush of the report loop blocks until released
+type slowFlushReporter struct {
+	recReporter
+	once    sync.Once
+	entered chan struct{}
+	release chan struct{}
+}
+
+func (r *slowFlushReporter) Flush() {
+	first := false
+	r.once.Do(func() { first = true })
+	if first {
+		close(r.entered)
+		<-r.release
+	}
 }
